@@ -528,4 +528,27 @@ theorem invariants_diagonalisable (P Pi : Mat3) (l : Vec3) (h1 : mmul Pi P = one
   rw [invariants_conj P Pi _ h1 h2, invariants_diag]
 
 
+/-! ### the forcing wrappers are identities -/
+@[simp] theorem ofA4_memoA4 (T : Ten4) : ofA4 (memoA4 T) = T := by
+  funext p q r s
+  have h : 27 * p.val + 9 * q.val + 3 * r.val + s.val < 81 := by omega
+  simp only [ofA4, memoA4, Array.getD_eq_getD_getElem?, Array.getElem?_ofFn, h, dite_true, Option.getD_some]
+  congr 1 <;> (apply Fin.ext; simp [Fin.ofNat]; try omega)
+
+@[simp] theorem ofA6_memoA6 (M : Mat6) : ofA6 (memoA6 M) = M := by
+  funext i j
+  have h : 6 * i.val + j.val < 36 := by omega
+  simp only [ofA6, memoA6, Array.getD_eq_getD_getElem?, Array.getElem?_ofFn, h, dite_true, Option.getD_some]
+  congr 1 <;> (apply Fin.ext; simp [Fin.ofNat]; try omega)
+
+@[simp] theorem ofA21_memoA21 (v : Vec21) : ofA21 (memoA21 v) = v := by
+  funext k
+  simp [ofA21, memoA21, Array.getD_eq_getD_getElem?, Array.getElem?_ofFn]
+
+@[simp] theorem ofA3_memoA3 (A : Mat3) : ofA3 (memoA3 A) = A := by
+  funext i j
+  have h : 3 * i.val + j.val < 9 := by omega
+  simp only [ofA3, memoA3, Array.getD_eq_getD_getElem?, Array.getElem?_ofFn, h, dite_true, Option.getD_some]
+  congr 1 <;> (apply Fin.ext; simp [Fin.ofNat]; try omega)
+
 end ModelR.Tensors
